@@ -487,6 +487,53 @@ macro_rules! generate_opcodes {
             ),*
         }
 
+        #[cfg(boa_verif)]
+        impl Instruction {
+            /// Variant name and operands as `(field name, operand kind, value)` (verification dump).
+            #[allow(unused_variables, clippy::type_complexity)]
+            pub(crate) fn verif_operands(
+                &self,
+            ) -> (&'static str, Vec<(&'static str, &'static str, serde_json::Value)>) {
+                use crate::verif::codeblock::VerifOperand;
+                match self {
+                    $(
+                        Self::$Variant $({ $($FieldName),* })? => (
+                            stringify!($Variant),
+                            vec![
+                                $($(
+                                    (
+                                        stringify!($FieldName),
+                                        <$FieldType as VerifOperand>::kind(),
+                                        VerifOperand::verif_value($FieldName),
+                                    ),
+                                )*)?
+                            ],
+                        ),
+                    )*
+                }
+            }
+
+            /// Every opcode of the instruction set with its operand signature (verification dump).
+            #[allow(clippy::type_complexity)]
+            pub(crate) fn verif_signatures(
+            ) -> Vec<(&'static str, u8, Vec<(&'static str, &'static str)>)> {
+                use crate::verif::codeblock::VerifOperand;
+                vec![
+                    $(
+                        (
+                            stringify!($Variant),
+                            Opcode::$Variant as u8,
+                            vec![
+                                $($(
+                                    (stringify!($FieldName), <$FieldType as VerifOperand>::kind()),
+                                )*)?
+                            ],
+                        ),
+                    )*
+                ]
+            }
+        }
+
         impl Bytecode {
             #[allow(unused_parens)]
             pub(crate) fn next_instruction(&self, pc: usize) -> (Instruction, usize) {
